@@ -303,3 +303,12 @@ proof fn rr_fair(c: usize, n: int, k: nat, r: int)
     lemma_rr_count_is_count_res(c, n, (k * n) as nat, r);
     lemma_rr_fair_int(c as nat, n, k, r);
 }
+
+// ---------------------------------------------------------------- connect (dispatch + "recorded == used")
+
+//@ contract LoadBalanceConnector::connect
+        requires
+            old(self).members_ok(&*state),
+            state.connectors.keyed_by_name(),
+            old(self).algorithm is HashBy ==> old(self).hash_by_ready(),
+//@ end
